@@ -61,6 +61,26 @@ def sig_of_callee(path):
 DISCHARGED = []
 
 
+def root_fn(path):
+    """the function a closure body belongs to"""
+    return re.sub(r"(::\{closure#\d+\})+$", "", path)
+
+
+def load_table():
+    """reviewed rows, keyed `function|construct` (rows written for a closure are folded into their function, counts added)"""
+    import json, os
+    rows = json.load(open(os.path.join(lib.VERIF, "tables", "panic_sites.json")))["rows"]
+    out = {}
+    for k, v in rows.items():
+        bp, _, sig = k.rpartition("|")
+        nk = root_fn(bp) + "|" + sig
+        if nk in out:
+            out[nk] = dict(out[nk], count=out[nk]["count"] + v["count"], reason=out[nk]["reason"] + " / " + v["reason"])
+        else:
+            out[nk] = dict(v)
+    return out
+
+
 def census(F, pkgs):
     """-> dict[(body_path, sig)] = [ (line, detail) ... ], and list of unclassified (body, callee, line)"""
     out = collections.defaultdict(list)
